@@ -101,7 +101,7 @@ theorem simulate_start_violation (cfg : Cfg) (P : Prog) (envAt : Nat → Env) (f
 theorem sub_start_violation (cfg : Cfg) (P : Prog) (env : Env) (fuel self : Nat) (inSub : Bool) (b : Nat)
     (l : List L) (c : List Frame) (v : Viol) (h : (startChecks cfg P env b).2 = some v) :
     go cfg P env (fuel + 1) self inSub (.exec (.sub b :: l) c)
-      = .viol v (Ev.sstart b :: (startChecks cfg P env b).1) := by
+      = .viol v (startChecks cfg P env b).1 := by
   cases hs : startChecks cfg P env b with
   | mk lg o => rw [hs] at h; simp at h; subst h; rw [go]; simp [hs]
 
@@ -132,7 +132,7 @@ theorem try_resume_checks (cfg : Cfg) (htc : cfg.tiCheck = true) (P : Prog) (env
     (hq : (kindIsDoUntil kind || blkHasSub body || blksHaveSub hs) = false) :
     go cfg P env (fuel + 1) self false (.resume (.atTry kind body hs l c)) =
       match invCheck P env self with
-      | (lg, some v) => .viol v lg
+      | (lg, some v) => .viol v (lg ++ closeStops cfg (blkSubs body ++ blksSubs hs))
       | (lg, none) => (go cfg P env fuel self false (.loopTI kind body hs l c)).pre lg := by
   rw [go]
   have : (false || kindIsDoUntil kind || blkHasSub body || blksHaveSub hs) = false := by simpa using hq
